@@ -2,7 +2,7 @@
    everything encoded as lists of integers so that the OCaml driver and the in-Coq re-evaluation
    (Eval vm_compute in run [...]) need no per-family glue. *)
 From Coq Require Import ZArith NArith List.
-From Cqos Require Import Base RateConv Float64 Divider Sched Utils.
+From Cqos Require Import Base RateConv Float64 Divider Sched Utils Join JoinSim.
 Import ListNotations.
 Open Scope Z_scope.
 
@@ -92,11 +92,53 @@ Definition run_new (args : list Z) : list Z :=
   | _ => [-1]
   end.
 
+(* ---- family 5: timed join / unite scenario (see JoinSim.v)
+   [variant; J; nocopy; T; inaccuracy; icap; close_after; stop_at; fuel; 2n; (delay len)*n; 2m; (hold pause)*m; k; oracle bits]
+   -> [0; ambiguous; finished; nputs; put times..; nouts; (t alias len vals..)*; tclose; stop_ret]   or [-code] (constructor error) *)
+Fixpoint pairs (l : list Z) : list (Z * Z) :=
+  match l with a :: b :: r => (a, b) :: pairs r | _ => [] end.
+Fixpoint mk_items (next : Z) (script : list (Z * Z)) : list (Z * list Z) :=
+  match script with
+  | [] => []
+  | (dl, len) :: r => (dl, map (fun i => next + Z.of_nat i) (seq 0 (Z.to_nat len))) :: mk_items (next + len) r
+  end.
+Definition enc_out (o : Z * Z * list Z) : list Z :=
+  let '(t, alias, vals) := o in t :: alias :: Z.of_nat (length vals) :: vals.
+
+Definition run_join (args : list Z) : list Z :=
+  match args with
+  | var :: j :: nc :: tmo :: inacc :: icp :: closeafter :: stopat :: fuel :: r =>
+      let '(ps, r1) := take_list r in
+      let '(cs, r2) := take_list r1 in
+      let '(orc, _) := take_list r2 in
+      let variant := if var =? 0 then JoinV2 else if var =? 1 then UniteV2 else JoinV1 in
+      let v1 := var =? 2 in
+      match calc_interval v1 tmo (normalize_inaccuracy inacc) with
+      | inr code => [- code]
+      | inl ivl =>
+          let c := {| variant_of := variant; jsize := Z.to_nat j; timeout := tmo; interval := ivl; nocopy := negb (nc =? 0) |} in
+          let items := mk_items 1 (pairs ps) in
+          let s0 := {| now := 0; d := jinit 0; ibuf := []; icap := Z.to_nat icp; iclosed := false; prod := items;
+                       prod_at := match items with [] => closeafter | (dl, _) :: _ => dl end; close_after := closeafter;
+                       prod_done := false; obuf := []; ocap := if v1 then 1%nat else S (Z.to_nat icp); cons_at := 0; cons_n := 0;
+                       cons_script := pairs cs; holding := None; cons_done := false; first_own := None; next_tick := ivl;
+                       stop_at := stopat; stop_called := false; stop_ret := -1; oracle := map (fun b => negb (b =? 0)) orc;
+                       outlog := []; putlog := []; tclose := -1; ambiguous := false |} in
+          let '(s1, fin) := sim_run c (Z.to_nat fuel) s0 in
+          let puts := rev (putlog s1) in
+          let outs := rev (outlog s1) in
+          [0; bool_z (ambiguous s1); bool_z fin; Z.of_nat (length puts)] ++ puts ++
+          [Z.of_nat (length outs)] ++ flat_map enc_out outs ++ [tclose s1; stop_ret s1]
+      end
+  | _ => [-99]
+  end.
+
 Definition run (args : list Z) : list Z :=
   match args with
   | 1 :: which :: rest => run_rate which rest
   | 2 :: rest => run_divider rest
   | 3 :: rest => run_utils rest
   | 4 :: rest => run_new rest
+  | 5 :: rest => run_join rest
   | _ => [-999]
   end.
